@@ -72,7 +72,7 @@ var LongStrings = []string{
 	"https://example.com/a/very/long/path/that/goes/on/and/on/and/on/",
 }
 
-var floatPool = []float64{5e-324, 1e-310, 2.5e-320, -5e-324, 0.3, 1234567890123456, 1234567890123457, 9007199254740990, 9007199254740991, 1.0000000000000002, 0.5, -0.5, 1e21, 1e-7, math.Copysign(0, -1), 1.5, 2.25, 9007199254740993, 1e300, -1, 0.1, 0.30000000000000004, 100}
+var floatPool = []float64{5e-324, 1e-310, 2.5e-320, -5e-324, 0.3, 1234567890123456, 1234567890123457, 9007199254740990, 9007199254740991, 1.0000000000000002, 0.5, -0.5, 1e21, 1e-7, math.Copysign(0, -1), 1.5, 2.25, 9007199254740993, 1e300, -1, 0.1, 0.30000000000000004, 100, 9223372036854775808, 1e19, 18446744073709549568}
 
 // Scale is 1 in the quick tier and 4 in the thorough tier: the generators of
 // long arrays, wide objects, long strings and deep nesting multiply their
@@ -83,6 +83,16 @@ func Scale() int {
 		return 4
 	}
 	return 1
+}
+
+// Rare is Chance for cases whose cost grows with the square of Scale (two
+// long arrays through the LCS): in the thorough tier the sizes are larger and
+// the share of such cases is cut so that the total work stays bounded.
+func Rare(t *rapid.T, label string, pct int) bool {
+	if !Chance(t, label, pct) {
+		return false
+	}
+	return Scale() == 1 || Chance(t, label+"Thorough", 8)
 }
 
 // Int draws an integer uniformly from [lo, hi]. rapid's own integer
@@ -268,7 +278,7 @@ func Doc(t *rapid.T, p Profile) V {
 // BigValue draws a value whose one-line JSON rendering is long: a string of
 // 5 KB or 70 KB, or an array of 80..3000 small numbers.
 func BigValue(t *rapid.T) V {
-	if Chance(t, "huge", 6) {
+	if Rare(t, "huge", 6) {
 		if Chance(t, "hugeString", 50) {
 			// longer than 1 MiB on one line
 			return strings.Repeat("m", 1200000) + fmt.Sprint(Int(t, "bigTag", 0, 9))
@@ -925,6 +935,19 @@ func PathTwins(t *rapid.T, a, b V, p Profile) (V, V) {
 	}
 	n1, n2 := change("twinNested")
 	f1, f2 := change("twinFlat")
+	if Chance(t, "twinLists", 35) {
+		// both places hold lists that change in the middle (hunks with context)
+		mid := func(name string) (V, V) {
+			x := Scalar(t, p)
+			return []V{1.0, x, 3.0}, []V{1.0, Pick(t, name, []V{9.0, "n", true}), 3.0}
+		}
+		n1, n2 = mid("twinNestedList")
+		f1, f2 = mid("twinFlatList")
+		if Chance(t, "twinAppend", 30) {
+			n2 = append(n1.([]V)[:3:3], 4.0)
+			f2 = append(f1.([]V)[:3:3], 5.0)
+		}
+	}
 	put := func(o map[string]V, nested, flatV V) {
 		inner := map[string]V{}
 		if Chance(t, "twinFiller", 40) {
